@@ -2,6 +2,7 @@ package ptracker
 
 import (
 	"fmt"
+	"strings"
 
 	"github.com/elastic/go-libaudit/v2/auparse"
 
@@ -89,6 +90,7 @@ func configs(prop string, thorough bool) []*Config {
 			c.Sess = append(c.Sess, SessDef{ID: "4294967295", PID: "105", Events: []auparse.AuditMessageType{tLOGIN, tEV, tDISP}})
 			c.Logins = append(c.Logins, LoginDef{PID: 105})
 		}
+		c.FanOutTypes = recordTypes(thorough)
 		// "whatever is emitted for a session after its credential-disposal record still carries only
 		// that session's own identity": only observable when another login with the same pid exists,
 		// so C04 also walks the pid-reuse alphabet of C09 with its identity oracle.
@@ -140,6 +142,31 @@ func configs(prop string, thorough bool) []*Config {
 		return []*Config{c}
 	}
 	return nil
+}
+
+// recordTypes: every record type go-libaudit knows (thorough), or a subset
+// containing every type the tracker could plausibly special-case (quick);
+// LOGIN and CRED_DISP are part of the alphabet itself.
+func recordTypes(all bool) []int {
+	var out []int
+	for n := 1000; n < 3000; n++ {
+		t := auparse.AuditMessageType(n)
+		if t == auparse.AUDIT_LOGIN || t == auparse.AUDIT_CRED_DISP || strings.HasPrefix(t.String(), "UNKNOWN[") {
+			continue
+		}
+		out = append(out, n)
+	}
+	if all {
+		return out
+	}
+	quick := []auparse.AuditMessageType{auparse.AUDIT_USER_LOGIN, auparse.AUDIT_USER_START, auparse.AUDIT_USER_END, auparse.AUDIT_USER_AUTH,
+		auparse.AUDIT_USER_ACCT, auparse.AUDIT_CRED_ACQ, auparse.AUDIT_CRED_REFR, auparse.AUDIT_USER_LOGOUT, auparse.AUDIT_USER_CMD,
+		auparse.AUDIT_SYSCALL, auparse.AUDIT_EXECVE, auparse.AUDIT_USER_ERR, auparse.AUDIT_SERVICE_START, auparse.AUDIT_DAEMON_START, auparse.AUDIT_ANOM_LOGIN_FAILURES}
+	out = out[:0]
+	for _, t := range quick {
+		out = append(out, int(t))
+	}
+	return out
 }
 
 func configByName(prop, name string) *Config {
@@ -197,7 +224,7 @@ func runBFS(run *mc.Run) int {
 		}
 		per = append(per, map[string]any{"config": cfg.Name, "states": r.States, "transitions": r.Transitions,
 			"max_depth": r.MaxDepth, "closure_reached": r.Complete, "sessions": len(cfg.Sess), "logins": len(cfg.Logins),
-			"transitions_with_nonidentity_iteration_order": r.PermChoices, "states_left_unjudged_outside_property_domain": r.Unspecified})
+			"transitions_with_nonidentity_iteration_order": r.PermChoices, "fan_out_transitions_every_record_type": r.FanOut, "states_left_unjudged_outside_property_domain": r.Unspecified})
 		fmt.Printf("%s: states=%d transitions=%d depth=%d complete=%v nontrivial=%d permchoices=%d\n", cfg.Name, r.States, r.Transitions, r.MaxDepth, r.Complete, r.NonTrivial, r.PermChoices)
 	}
 	cov.Extra["configs"] = per
